@@ -108,6 +108,7 @@ class PrimMonitor:
         self.extra = {}  # primitive name -> [decider(engine_kind, args, kwargs, result, rec)]
         self.depth = 0
         self.shadow = True
+        self.enabled = True
 
     def add_decider(self, prim, fn):
         self.extra.setdefault(prim, []).append(fn)
@@ -147,7 +148,7 @@ class PrimMonitor:
 
         @functools.wraps(f)
         def w(*args, **kwargs):
-            if mon.depth:
+            if mon.depth or not mon.enabled:
                 return f(*args, **kwargs)
             mon.depth += 1
             try:
